@@ -331,6 +331,9 @@ def rule_chebyshev_bounds(ck, units, which=('cheb', 'sib')):
                 ck.ob('cheb-scale-consistent', 'amgcl::relaxation::chebyshev::ctor', f.where(), not dets, '; '.join(dets[:2]))
         ser = [f for f in u.funcs if f.q == 'amgcl::backend::spectral_radius' and f.params and 'distributed_matrix' not in u.type(f.decl(f.params[0]).get('ct')) and 'spectral_radius<true' in f.full]
         dis = [f for f in u.funcs if f.q == 'amgcl::backend::spectral_radius' and f.params and 'distributed_matrix' in u.type(f.decl(f.params[0]).get('ct')) and 'spectral_radius<true' in f.full]
+        # the two branches may live in helper functions of the same file (namespace detail)
+        ser = [inline.expand(f, inline.same_file_detail_helper()) for f in ser]
+        dis = [inline.expand(f, inline.same_file_detail_helper()) for f in dis]
         if ser and dis and 'sib' not in done:
             done.add('sib')
 
@@ -364,6 +367,7 @@ def rule_power_norm(ck, units, floor=4):
         for f in u.funcs:
             if f.q != 'amgcl::backend::spectral_radius' or f.body is None:
                 continue
+            f = inline.expand(f, inline.same_file_detail_helper())
             for n in f.nodes.values():
                 if not (n['k'] == 'bin' and n['op'] == '+='):
                     continue
